@@ -11,7 +11,7 @@
     Examples that exhibit the hypotheses on concrete instances. *)
 From Coq Require Import NArith ZArith List Bool.
 From M17 Require Import Bits SpecCRC SpecM17 ConstsModulator ImplModulator SpecModulator ModelOutQueue
-  LemmasMdl_Bits LemmasMdl_SM LemmasMdl_Shape LemmasMdl_Queue LemmasMdl_Main.
+  LemmasMdl_Bits LemmasMdl_SM LemmasMdl_Shape LemmasMdl_Queue LemmasMdl_Main LemmasMdl_Run.
 Import ListNotations.
 Local Open Scope N_scope.
 
@@ -163,6 +163,20 @@ Theorem c14_every_session_runs : forall (junk : nat -> N) (cstate : Type)
              /\ st_mode s' = IDLE.
 Proof. exact structured_runs. Qed.
 Print Assumptions c14_every_session_runs.
+
+(** 8. Reconfiguration.  source()/dest() assign the encoded callsigns used by the next LINK_SETUP; called while the modulator is
+    idle they split the schedule into segments ([ImplModulator.run_segments]: each segment runs with the pair configured before it,
+    from the state - LICH segments, counters, audio buffer, Codec2 state - the previous segments left).  For every list of groups
+    (callsign pair, key-ups, idle iterations) the bytes are, group after group, the specification's session stream for THAT
+    group's pair: no LICH fragment, LSF byte or payload of an earlier configuration survives. *)
+Theorem c14_reconfigured_sessions : forall (junk : nat -> N) (cstate : Type)
+  (codec2_encode : cstate -> list Z -> cstate * list N), codec2_ok codec2_encode ->
+  forall (groups : list group) (c0 : cstate), Forall group_ok groups ->
+  exists s', run_segments junk cstate codec2_encode (minit junk cstate c0) (map seg_of groups)
+             = Some (s', snd (configured_stream cstate codec2_encode c0 (map grp_of groups)))
+             /\ st_mode s' = IDLE /\ st_codec s' = fst (configured_stream cstate codec2_encode c0 (map grp_of groups)).
+Proof. exact configured_sessions_run. Qed.
+Print Assumptions c14_reconfigured_sessions.
 
 (** ** Examples: the hypotheses are satisfiable, and the two sides agree on a concrete session *)
 From M17 Require Import LemmasMdl_Examples.
